@@ -12,6 +12,7 @@ from .builtins_model import stdlib, is_prim, boolval
 
 def module(name, **ns):
     m = IModule(name)
+    m.is_model = True
     m.ns.update(ns)
     return m
 
@@ -331,10 +332,35 @@ def _re(I):
                 return Native("group", group)
             return MISSING
 
-    def match(I_, a, k):
+    class Pattern:
+        def __init__(self, pat):
+            self.pattern = pat
+
+        def pyvc_getattr(self, I_, name):
+            if name == "match":
+                return Native("match", lambda I2, a, k: match(I2, [self.pattern] + list(a), k))
+            if name == "fullmatch":
+                return Native("fullmatch", lambda I2, a, k: match(I2, [self.pattern] + list(a), k, full=True))
+            if name == "pattern":
+                return self.pattern
+            raise OutOfReach("compiled pattern attribute %s" % name)
+
+    def compile_(I_, a, k):
+        if not isinstance(a[0], str) or len(a) > 1 or k:
+            raise OutOfReach("re.compile with flags / symbolic pattern")
+        return Pattern(a[0])
+
+    def match(I_, a, k, full=False):
         pat, s = a[0], a[1]
+        if isinstance(pat, Pattern):
+            pat = pat.pattern
         if not isinstance(pat, str):
             raise OutOfReach("re.match with symbolic pattern")
+        if len(a) > 2 or k:
+            raise OutOfReach("re.match with flags")
+        if full:
+            # fullmatch: the whole text, no trailing-newline tolerance
+            pat = ("" if pat.startswith("^") else "^") + pat.rstrip("$") + "\\Z"
         if isinstance(s, str):
             mo = re.match(pat, s)
             return None if mo is None else Match(list(mo.groups()))
@@ -346,7 +372,8 @@ def _re(I):
             gs = match_symbolic(I_, pat, get_s(s.term))
             return None if gs is None else Match(gs)
         I_.raise_builtin("TypeError", "expected string or bytes-like object")
-    return module("re", match=Native("match", match))
+    return module("re", match=Native("match", match), compile=Native("compile", compile_),
+                  fullmatch=Native("fullmatch", lambda I_, a, k: match(I_, a, k, full=True)))
 
 
 # ---------------------------------------------------------------- xml.etree
